@@ -30,7 +30,7 @@ impl<V> FlexChild<V> {
 
     pub fn flex(self, flex: f64) -> Self {
         Self {
-            flex: Some(flex),
+            flex: (flex > 0.0).then_some(flex),
             ..self
         }
     }
@@ -275,7 +275,11 @@ impl<'a> Flex<'a> {
                             align: Align::default(),
                         })
                     } else {
-                        let flex = value.get("flex").map(f64::deserialize).transpose()?;
+                        let flex = value
+                            .get("flex")
+                            .map(f64::deserialize)
+                            .transpose()?
+                            .and_then(|flex| (flex > 0.0).then_some(flex));
                         let align = value
                             .get("align")
                             .map(Align::deserialize)
